@@ -211,6 +211,7 @@ class TraceVerdict:
         self.drift = 0
         self.f2 = 0
         self.f4 = 0
+        self.f5 = 0
         self.violation = None  # dict(invariant, chunk, line, names, behaviour_cmds, state)
         self.tlc = []
 
@@ -245,6 +246,8 @@ def validate(chk, trace_path, nodes, invariants=None, module="TraceG", extra_con
                 v.drift += int(c[0])
                 v.f2 += int(c[1])
                 v.f4 += int(c[2])
+                if len(c) > 3:
+                    v.f5 += int(c[3])
                 if int(c[0]) > 0:
                     # keep the trace of a chunk the specification could not follow, for diagnosis
                     try:
@@ -301,7 +304,7 @@ def validate(chk, trace_path, nodes, invariants=None, module="TraceG", extra_con
     chk.transitions += sum(r.generated for r in v.tlc)
     chk.states += sum(r.distinct for r in v.tlc)
     chk.tlc_cmds.append({"what": "trace-validation:" + label, "chunks": len(v.tlc), "steps": v.steps,
-                         "drift": v.drift, "f2_signatures": v.f2, "f4_signatures": v.f4,
+                         "drift": v.drift, "f2_signatures": v.f2, "f4_signatures": v.f4, "f5_signatures": v.f5,
                          "cmd": v.tlc[0].cmd if v.tlc else ""})
     chk.drift += v.drift
     return v
